@@ -279,18 +279,20 @@ func init() {
 			l1, l2 := m3.C3(axis).OrthoBasis()
 			e1, e2 := m3.V3(l1), m3.V3(l2)
 			pitch := prof.PitchRadius()
+			lau := m3.C3(axis).Normalize()
+			lp1 := m3.C3(p1)
 			b.under = func(p kit.V3) bool {
 				t := p.Sub(p1).Dot(au)
 				if t < 0 || t > h {
 					return false
 				}
-				x, y := e1.Dot(p), e2.Dot(p)
+				c := m3.C3(p)
+				c2 := model2d.Coord{X: l1.Dot(c), Y: l2.Dot(c)}
 				if helical {
-					th := math.Tan(angle) * t / pitch
-					c, s := math.Cos(th), math.Sin(th)
-					x, y = c*x-s*y, s*x+c*y
+					th := math.Tan(angle) * lau.Dot(c.Sub(lp1)) / pitch
+					c2 = model2d.NewMatrix2Rotation(th).MulColumn(c2)
 				}
-				return prof.Contains(model2d.XY(x, y))
+				return prof.Contains(c2)
 			}
 			_, outer := gp.radii()
 			for _, t := range []float64{0, h / 2, h} {
